@@ -153,7 +153,7 @@ Section WellFormed.
     | None => false
     | Some f => match f_payload f with
                 | None => false
-                | Some text => match parse text with PTree j => shape_ok Jsoniter false j | _ => false end
+                | Some text => match parse text with PTree j => shape_ok StdJson false j | _ => false end
                 end
     end.
 End WellFormed.
@@ -161,12 +161,17 @@ End WellFormed.
 (** ** the oracle on observations *)
 Inductive okind := KStatus (c : Z) | KData | KIgnored | KClosed (c : Z) | KOther.
 
+(** the answer as it was on the wire: Content-Type, Content-Length, body of an HTTP answer; the text
+    frames received for the operation and the payload bytes the harness cut out of them *)
+Inductive wobs := WoHttp (ctype : bytes) (clen : Z) (body : bytes) | WoWs (frames raws : list bytes) | WoNone.
+
 Record obs := {
   ob_kind : okind;
   ob_payloads : list bytes;     (* canonical response(s): data with key order; errors as sorted (message, locations, path) *)
   ob_completed : bool;
   ob_resolvers : bytes;         (* resolver call log: field, arguments with their Go dynamic types, feature set *)
-  ob_hooks : bytes              (* Execute hook log: query, operationName, variables, features, RequestInfo.Cost *)
+  ob_hooks : bytes;             (* Execute hook log: query, operationName, variables, features, RequestInfo.Cost *)
+  ob_wire : wobs
 }.
 
 Fixpoint list_eqb {A} (eq : A -> A -> bool) (a b : list A) : bool :=
